@@ -728,12 +728,15 @@ class _Hbar:
 
 def gen_gauss_spec(rng, n, lossy):
     cmds = []
+    product = rng.random() < 0.2          # some states stay products of single-mode states
     for i in range(n):
         if rng.random() < 0.85:
-            cmds.append(["Sgate", [round(rng.uniform(0.05, 0.25), 3), round(rng.uniform(-3, 3), 2)], [i], False])
+            # structured angles (0, pi, +-pi/2) next to random ones: exactly vanishing covariance entries
+            ph = rng.choice([0.0, math.pi, math.pi / 2, -math.pi / 2]) if rng.random() < 0.3 else round(rng.uniform(-3, 3), 2)
+            cmds.append(["Sgate", [round(rng.uniform(0.05, 0.25), 3), ph], [i], False])
         if rng.random() < 0.85:
             cmds.append(["Dgate", [round(rng.uniform(0.05, 0.35), 3), round(rng.uniform(-3, 3), 2)], [i], False])
-    if n >= 2:
+    if n >= 2 and not product:
         # two-mode gates on pairs in either order (descending targets included)
         pairs = [rng.sample(range(n), 2) for _ in range(rng.randint(1, n))]
         if rng.random() < 0.4:
